@@ -26,6 +26,9 @@ func buildIntrinsics() map[string]Intrinsic {
 	addIO(m)
 	addHTTP(m)
 	addMisc(m)
+	for _, f := range extraIntrinsics {
+		f(m)
+	}
 	return m
 }
 
